@@ -8,6 +8,7 @@ from sa.cfg import CFG, own_nodes
 from sa.jsonkeys import PROCESS_FUNCS, all_from_json, const_key, reader_info
 from sa.loader import AnalysisError, Unsupported, dotted_name, norm_text
 from sa.report import where
+from sa.members import self_attr
 from sa.util import enclosing_function
 
 UTILS = 'torchtree.core.utils'
@@ -684,6 +685,21 @@ def check_type_registry(ctx, rep):
         rep.incomplete('C13.G', 'registry::decorated-classes', '', f"only {decorated} classes registered by decorator")
 
 
+def check_forwards_unconditionally(fn, cls=None, depth=0) -> bool:
+    """on every path through the handler the value is marked outdated (`self.lp_needs_update = True`) and `self.fire_model_changed(...)` is called; a handler that only
+    delegates to another method of the class is decided on that method"""
+    body = [b for b in fn.body if not (isinstance(b, ast.Expr) and isinstance(b.value, ast.Constant))]
+    if cls is not None and depth < 2 and len(body) == 1 and isinstance(body[0], ast.Expr) and isinstance(body[0].value, ast.Call) and self_attr(body[0].value.func):
+        r = cls.resolve(body[0].value.func.attr)
+        if r is not None:
+            return check_forwards_unconditionally(r[1], cls, depth + 1)
+    cfg = CFG(fn)
+    sets = [n for n in cfg.stmt_nodes() if isinstance(n.stmt, ast.Assign) and any(self_attr(t) == 'lp_needs_update' for t in n.stmt.targets)
+            and isinstance(n.stmt.value, ast.Constant) and n.stmt.value.value is True]
+    fires = [n for n in cfg.stmt_nodes() if isinstance(n.stmt, ast.Expr) and isinstance(n.stmt.value, ast.Call) and self_attr(n.stmt.value.func) == 'fire_model_changed']
+    return bool(sets) and bool(fires) and cfg.must_pass(cfg.entry, cfg.exit, sets) and cfg.must_pass(cfg.entry, cfg.exit, fires)
+
+
 def check_updates_reach_every_holder(ctx, rep):
     """"an update made through one holder is observed by every other holder": holders of a shared parameter are notified by the parameter they hold.  The setter of every
     parameter class that writes *into another parameter* (views, concatenations, transformed parameters) ends in a notification of that underlying parameter (C11.W), and a
@@ -698,6 +714,21 @@ def check_updates_reach_every_holder(ctx, rep):
     c11.check_inplace(ctx, RuleProxy(rep, 'C13.U', 'in-place::'), rule='C11.W', only=lambda m, fn: m.name == 'torchtree.core.parameter')
     tree_base = ctx.classes.get('torchtree.evolution.tree_model.TimeTreeModel')
     c11.check_shared_flags(ctx, RuleProxy(rep, 'C13.U', 'flags::'), only=lambda c: c is tree_base or c.has_base(tree_base.qualname))
+    # the base classes every holder inherits its forwarding from (CallableModel, the parameter kinds of core/parameter.py): an event that is swallowed there never reaches the
+    # holders further up
+    from sa.members import Kinds
+    kinds_ = Kinds(ctx.classes)
+    for cls in sorted(ctx.classes.classes.values(), key=lambda c: c.qualname):
+        if cls.module.name.startswith('torchtree.core.') and (cls.has_base('torchtree.core.parametric.Parametric') or cls.has_base('torchtree.core.abstractparameter.AbstractParameter')):
+            c11.check_handlers(ctx, RuleProxy(rep, 'C13.U', 'handlers::'), kinds_, cls)
+    for q in ('torchtree.core.model.CallableModel',):
+        base = ctx.classes.get(q)
+        for meth in ('handle_parameter_changed', 'handle_model_changed'):
+            r = base.resolve(meth)
+            ok = r is not None and check_forwards_unconditionally(r[1], base)
+            rep.check('C13.U', f"handlers::{q}::{meth}::forwards-every-event", ok, where(base.module, r[1]) if r else '', None,
+                      f"CallableModel.{meth} does not mark the value outdated and call fire_model_changed on every path: a holder whose own value was already outdated swallows "
+                      f"the event, and the holders above it keep a value computed from the old one")
     if n < 5:
         rep.incomplete('C13.U', '*', '', f"only {n} parameter classes examined")
 
